@@ -370,4 +370,76 @@ theorem texts_bytes_of_strip (segs : List Seg) (t : Bytes) (ht : t ∈ texts seg
   rw [strip_eq_texts]
   exact List.mem_flatten.mpr ⟨t, ht, hx⟩
 
+/-! ### the whole output loop of `filter` -/
+
+theorem strip_wrapE (en : Bool) (c r s : Bytes) : strip (wrapE en c r s) = s := by
+  unfold wrapE
+  cases en
+  · simp [strip]
+  · by_cases h : s.length < r.length ∨ s.drop (s.length - r.length) ≠ r <;> simp [h, strip]
+
+theorem strip_filterPrefix (en : Bool) (p : Palette) (m : FMatch) :
+    strip (filterPrefix en p m) = m.source ++ [0x20] ++ itoa m.lineNum ++ [0x3a, 0x20] := by
+  unfold filterPrefix
+  simp [strip_append, strip_wrapE, strip]
+
+/-- the index list of a match is one a matcher can hand out -/
+def FMatch.OK (m : FMatch) : Prop := 2 ≤ m.indices.length ∧ ∀ g ∈ m.indices, g ≤ m.line.length
+
+/-- what `filter` should print for one match, colours aside -/
+def plainLine (writeLines custom : Bool) (m : FMatch) : Bytes :=
+  (if writeLines then m.source ++ [0x20] ++ itoa m.lineNum ++ [0x3a, 0x20] else []) ++
+    (if custom then m.extracted else m.line) ++ [0x0a]
+
+theorem filterOne_strip (en wl cu : Bool) (p : Palette) (m : FMatch) (h : cu = false → m.OK) :
+    ∃ segs, filterOne en wl cu p m = .ok segs ∧ strip segs = plainLine wl cu m := by
+  unfold filterOne plainLine
+  have hpre : strip (if wl = true then filterPrefix en p m else []) =
+      (if wl = true then m.source ++ [0x20] ++ itoa m.lineNum ++ [0x3a, 0x20] else []) := by
+    cases wl <;> simp [strip_filterPrefix, strip]
+  cases cu with
+  | true => exact ⟨_, rfl, by simp only [strip_append, hpre]; simp [strip]⟩
+  | false =>
+    obtain ⟨h2, hr⟩ := h rfl
+    cases en with
+    | true =>
+      obtain ⟨segs, hs, hst, _⟩ := filterLine_on p.groups p.reset m.line m.indices h2 hr
+      refine ⟨_, by simp only [Bool.not_false, if_true, hs]; rfl, ?_⟩
+      simp only [strip_append, hpre, hst]
+      simp [strip]
+    | false =>
+      refine ⟨_, by simp only [Bool.not_false, if_true, filterLine_off p.groups p.reset m.line m.indices h2]; rfl, ?_⟩
+      simp only [strip_append, hpre]
+      simp [strip]
+
+theorem filterAll_strip (en wl cu : Bool) (p : Palette) (num : Nat) :
+    ∀ (ms : List FMatch) (rl : Nat), (∀ m ∈ ms, cu = false → m.OK) → (num = 0 ∨ rl < num) →
+      ∃ segs, filterAll en wl cu p num ms rl = .ok segs ∧
+        strip segs = ((if num = 0 then ms else ms.take (num - rl)).flatMap (plainLine wl cu)) := by
+  intro ms
+  induction ms with
+  | nil => intro rl _ _; exact ⟨[], rfl, by simp [strip]⟩
+  | cons m ms ih =>
+    intro rl hok hrl
+    obtain ⟨segs, hs, hst⟩ := filterOne_strip en wl cu p m (hok m List.mem_cons_self)
+    simp only [filterAll, hs]
+    by_cases hlim : num > 0 ∧ rl + 1 ≥ num
+    · rw [if_pos hlim]
+      have h0 : num ≠ 0 := by omega
+      have h1 : num - rl = 1 := by omega
+      refine ⟨segs, rfl, ?_⟩
+      rw [if_neg h0, h1]
+      simp [hst]
+    · rw [if_neg hlim]
+      obtain ⟨rest, hr, hrst⟩ := ih (rl + 1) (fun x hx => hok x (List.mem_cons_of_mem _ hx)) (by omega)
+      rw [hr]
+      refine ⟨segs ++ rest, rfl, ?_⟩
+      rw [strip_append, hst, hrst]
+      by_cases h0 : num = 0
+      · simp [h0]
+      · have e : num - rl = (num - (rl + 1)) + 1 := by omega
+        simp only [if_neg h0]
+        rw [e, List.take_succ_cons]
+        simp
+
 end Rare.C02
